@@ -14,11 +14,11 @@ import (
 )
 
 type ElectRound struct {
-	PreTx   bool `json:"pre_tx"`  // the outgoing proposer has a transaction in the block that holds the election
-	PreChk  bool `json:"pre_chk"` // ... and one in the mempool before it
-	Mode    int  `json:"mode"`    // 0 check, 1 process, 2 finalize (sequence advance)
+	PreTx    bool `json:"pre_tx"`  // the outgoing proposer has a transaction in the block that holds the election
+	PreChk   bool `json:"pre_chk"` // ... and one in the mempool before it
+	Mode     int  `json:"mode"`    // 0 check, 1 process, 2 finalize (sequence advance)
 	OldFirst bool `json:"old_first"`
-	Gap     int  `json:"gap"` // plain blocks between the election and the probes (0..2)
+	Gap      int  `json:"gap"` // plain blocks between the election and the probes (0..2)
 }
 
 type ElectCase struct {
